@@ -136,6 +136,9 @@ type Exec struct {
 	Log      []string
 	userData interface{}
 	finishedN int
+	hmu       sync.Mutex
+	helpers   map[uint64]*thread
+	vmu       sync.Mutex // protects touched/race state against helper goroutines
 }
 
 // Config tunes the scheduler.
@@ -643,6 +646,64 @@ func GoNamed(name string, f func()) {
 	t := e.newThread(name, p)
 	e.join.Add(1)
 	go e.threadMain(t, f)
+}
+
+// GoHelper starts a free-running helper goroutine that belongs to the running
+// controlled thread (the lexer goroutine of a Parse call: a single-producer /
+// single-consumer pipe private to one call). The helper is not scheduled, but
+// its accesses to instrumented variables are attributed to its owner thread
+// for the race check.
+func GoHelper(f func()) {
+	e := cur
+	if e == nil {
+		go f()
+		return
+	}
+	if e.aborting {
+		goexit()
+	}
+	owner := e.running
+	go func() {
+		// not joined at the end of the execution: a lexer whose parse failed
+		// stays blocked on its channel for ever (C07) and never runs again
+		id := goid()
+		e.hmu.Lock()
+		if e.helpers == nil {
+			e.helpers = map[uint64]*thread{}
+		}
+		e.helpers[id] = owner
+		e.hmu.Unlock()
+		defer func() {
+			e.hmu.Lock()
+			delete(e.helpers, id)
+			e.hmu.Unlock()
+		}()
+		f()
+	}()
+}
+
+func goid() uint64 {
+	var buf [64]byte
+	n := runtime.Stack(buf[:], false)
+	// "goroutine 123 ["
+	var id uint64
+	for _, c := range buf[10:n] {
+		if c < '0' || c > '9' {
+			break
+		}
+		id = id*10 + uint64(c-'0')
+	}
+	return id
+}
+
+// helperOwner returns the owner thread if the calling goroutine is a helper.
+func (e *Exec) helperOwner() *thread {
+	e.hmu.Lock()
+	defer e.hmu.Unlock()
+	if len(e.helpers) == 0 {
+		return nil
+	}
+	return e.helpers[goid()]
 }
 
 // ThreadID returns the id of the running controlled thread (-1 outside).
@@ -1196,20 +1257,41 @@ func Touch(addr interface{}, write bool) {
 		return
 	}
 	if e.aborting {
+		if e.helperOwner() != nil {
+			return
+		}
 		goexit()
 	}
 	a := ptrOf(addr)
+	pc := callerPC(2)
+	if owner := e.helperOwner(); owner != nil {
+		// free-running helper: race check only, attributed to its owner
+		e.vmu.Lock()
+		e.touchCheck(owner, a, write, pc)
+		e.vmu.Unlock()
+		return
+	}
+	e.vmu.Lock()
 	vs := e.touched[a]
 	if vs == nil {
 		vs = &varState{id: e.newObj()}
 		e.touched[a] = vs
 	}
+	e.vmu.Unlock()
 	if !e.cfg.NoTouchPoints && len(e.threads)-e.finishedN >= 2 {
 		e.point(op{kind: opTouch, obj: vs.id})
 	}
-	t := e.running
-	pc := callerPC(2)
-	// race check
+	e.vmu.Lock()
+	e.touchCheck(e.running, a, write, pc)
+	e.vmu.Unlock()
+}
+
+func (e *Exec) touchCheck(t *thread, a uintptr, write bool, pc uintptr) {
+	vs := e.touched[a]
+	if vs == nil {
+		vs = &varState{id: e.newObj()}
+		e.touched[a] = vs
+	}
 	if vs.hasW && vs.lastW.tid != t.id && vs.lastW.clk > t.vc.get(vs.lastW.tid) {
 		e.race(vs.lastW.site, pc, true, write)
 	}
